@@ -150,6 +150,8 @@ def rerun_episode(run, case, tag):
                 sb.nk_event(c["file"])
             elif ev == "load":
                 sb.load_event(c["file"])
+            elif ev == "twin":
+                pass        # twin probes are re-derived only by a full re-run of the check
             elif ev == "align":
                 n = len(e.get("names") or []) or 1
                 sb.align(c["file"], n, c["minf"], c["filter"], c["am"], c["mask"], c["nogap"])
